@@ -121,3 +121,4 @@ ssize_t verif_os_read_chk(int fd, void *buf, size_t n, size_t buflen) { (void)bu
 int verif_os_open_2(const char *path, int flags) { (void)flags; return sim_os_open(path); }
 ssize_t verif_os_getrandom_chk(void *buf, size_t len, unsigned flags, size_t buflen) { (void)buflen; return verif_os_getrandom(buf, len, flags); }
 int verif_os_getentropy_chk(void *buf, size_t len, size_t buflen) { (void)buflen; return verif_os_getentropy(buf, len); }
+int verif_os_open64_2(const char *path, int flags) { (void)flags; return sim_os_open(path); }
